@@ -191,6 +191,7 @@ type Query struct {
 	OrderBy               []core.OrderBy
 	Offset                int
 	Limit                 int
+	HasLimit              bool // true if the query has an explicit LIMIT clause (distinguishes LIMIT 0 from no limit)
 	ForceFresh            bool
 }
 
@@ -645,6 +646,7 @@ func (q *Query) applyLimit(stmt *sqlparser.Select) error {
 				return fmt.Errorf("Unable to parse limit %v: %v", _limit, err)
 			}
 			q.Limit = limit
+			q.HasLimit = true
 		}
 
 		if stmt.Limit.Offset != nil {
